@@ -12,6 +12,7 @@ mod framework;
 mod registry;
 mod scen_agg;
 mod scen_queue;
+mod scen_uow;
 
 fn main() {
     let args: Vec<String> = std::env::args().collect();
